@@ -15,8 +15,8 @@
    are arbitrary. *)
 From Coq Require Import ZArith List Bool Permutation Lia.
 Import ListNotations.
-From Urwid Require Import PyBase PyList ColourBase colours_gen Colours
-     ColoursTables ColoursBits ColoursSpec ColoursRound ColoursMore ColoursRgb.
+From Urwid Require Import PyBase PyList ColourBase ColourStr colours_gen Colours
+     ColoursTables ColoursBits ColoursSpec ColoursRound ColoursMore ColoursRgb ColoursStrFacts ColoursLex ColoursStrThm.
 Open Scope Z_scope.
 
 (* ===== clause 1: the reported descriptions rebuild an equal specification; equal => equal hashes ===== *)
@@ -242,6 +242,106 @@ Example rejected_inputs :
   attrspec_new [PCol (DH 5)] DDefault 16 = RErr AttrSpecError 5 /\
   attrspec_new [PCol (DBasic 5)] DDefault 1 = RErr AttrSpecError 5 /\
   attrspec_new [PCol DDefault] DDefault 255 = RErr AttrSpecError 6.
+Proof. vm_compute. repeat split. Qed.
+
+(* ===== on RAW STRINGS: the lexing is inside the model =====
+   A string is a list of code points (Base/ColourStr.v).  foreground.split(","), part.strip(), the setting
+   and colour name tables (translated from the source), startswith / len / slicing, int(s, 10 / 16) with
+   CPython's acceptance rules (white space, sign, "0x" with one "_", single underscores, Unicode decimal
+   digits and spaces) and the f-string formatting are Gallina functions; _parse_color_* / _color_desc_* /
+   _true_to_256 are translated from the source on strings WITHOUT any abstraction (parse_color_256_s ...).
+   The statements below hold for EVERY string: no well-formedness hypothesis is left. *)
+
+(* the string-level parsers are the description-level ones after lexing *)
+Theorem parsers_lift_through_the_lexer :
+  forall s, parse_color_256_s s = parse_color_256 (lex_plain s) /\
+            parse_color_88_s s = parse_color_88 (lex_88 s) /\
+            parse_color_true_s s = parse_color_true (lex_true s) /\
+            bind (true_to_256_s s) (fun t => parse_color_256_s (match t with Some (c :: r) => c :: r | _ => s end))
+            = parse_color_256 (lex_256 s).
+Proof.
+  intros s. exact (conj (parse_256_lex s) (conj (parse_88_lex s) (conj (parse_true_lex s) (parse_mode_256_lex s)))).
+Qed.
+Print Assumptions parsers_lift_through_the_lexer.
+
+(* the string-level constructor is the description-level one after lexing, and every lexed input is
+   well formed: this is what lifts every description-level theorem above to all strings *)
+Theorem constructor_lifts_through_the_lexer :
+  forall fg bg D,
+    attrspec_new_s fg bg D = attrspec_new (lex_fg (mode_of D) fg) (lex_color (mode_of D) bg) D /\
+    Forall (wf_part (mode_of D)) (lex_fg (mode_of D) fg) /\ wf_desc (mode_of D) (lex_color (mode_of D) bg).
+Proof. intros fg bg D. exact (conj (attrspec_new_lex fg bg D) (conj (lex_fg_wf _ fg) (lex_color_wf _ bg))). Qed.
+Print Assumptions constructor_lifts_through_the_lexer.
+
+(* parse (describe v) = v on strings: the strings reported by foreground / background rebuild the same
+   packed value, at the declared depth and at the reported depth *)
+Theorem string_roundtrip :
+  forall D fg bg v, attrspec_new_s fg bg D = ROk v ->
+    exists fs bs, foreground_s v = Ok fs /\ background_s v = Ok bs /\
+      attrspec_new_s fs bs D = ROk v /\ attrspec_new_s fs bs (attr_colors v) = ROk v.
+Proof. exact ColoursStrThm.string_roundtrip. Qed.
+Print Assumptions string_roundtrip.
+
+(* per parser: describing a palette number / a 24-bit value as a string and parsing the string again *)
+Theorem string_parse_describe :
+  (forall c, 0 <= c < 256 -> exists s, color_desc_256_s c = Ok s /\ parse_color_256_s s = Ok (Some c)) /\
+  (forall c, 0 <= c < 88 -> exists s, color_desc_88_s c = Ok s /\ parse_color_88_s s = Ok (Some c)) /\
+  (forall n, 0 <= n < 16777216 -> exists s, color_desc_true_s n = Ok s /\ parse_color_true_s s = Ok (Some n)).
+Proof.
+  exact (conj (rt_s_spec _ _ 256 rt_256_s_sweep) (conj (rt_s_spec _ _ 88 rt_88_s_sweep) string_parse_describe_true)).
+Qed.
+Print Assumptions string_parse_describe.
+
+(* rejection: whatever the two strings and the depth are, the constructor raises nothing but AttrSpecError *)
+Theorem string_reject_is_attrspecerror :
+  forall fg bg D e w, attrspec_new_s fg bg D = RErr e w -> e = AttrSpecError /\ 1 <= w <= 6.
+Proof. exact reject_on_strings. Qed.
+Print Assumptions string_reject_is_attrspecerror.
+
+(* reported depth on strings: not above the declared one, and no smaller depth yields the value *)
+Theorem string_colors_minimal :
+  forall D fg bg v, attrspec_new_s fg bg D = ROk v ->
+    attr_colors v <= D /\ forall d fg' bg', d < attr_colors v -> attrspec_new_s fg' bg' d <> ROk v.
+Proof. exact string_colors. Qed.
+Print Assumptions string_colors_minimal.
+
+(* RGB on strings: get_rgb_values is the xterm value of what the reported strings lex to *)
+Theorem string_rgb_matches_xterm :
+  forall D fg bg v, attrspec_new_s fg bg D = ROk v ->
+    exists fc bs,
+      foreground_s v = Ok (fc ++ settings_suffix v) /\ background_s v = Ok bs /\
+      get_rgb_values v = Ok (expected_rgb (attr_colors v) (lex_color (mode_of D) fc),
+                             expected_rgb (attr_colors v) (lex_color (mode_of D) bs)).
+Proof. exact string_rgb. Qed.
+Print Assumptions string_rgb_matches_xterm.
+
+(* int(): |int(s, base)| < base ^ len(s); and int(f"{n:06x}", 16) = n *)
+Theorem int_facts :
+  (forall base s n, 2 <= base -> py_int base s = Some n -> - base ^ (zlen s) < n < base ^ (zlen s)) /\
+  (forall n, 0 <= n < 16777216 -> zlen (fmt_x_pad 6 n) = 6 /\ py_int 16 (fmt_x_pad 6 n) = Some n).
+Proof.
+  split; [exact py_int_bound|]. intros n H. destruct (fmt_x_pad6 n H) as [A [B _]]. exact (conj A B).
+Qed.
+Print Assumptions int_facts.
+
+Example strings_somewhere :
+  (* AttrSpec(' #ddb , underline,bold', '#004', 256) -> ('#dda,bold,underline', '#006') *)
+  let fg := [32; 35; 100; 100; 98; 32; 44; 32; 117; 110; 100; 101; 114; 108; 105; 110; 101; 44; 98; 111; 108; 100] in
+  exists v, attrspec_new_s fg [35; 48; 48; 52] 256 = ROk v /\
+    foreground_s v = Ok [35; 100; 100; 97; 44; 98; 111; 108; 100; 44; 117; 110; 100; 101; 114; 108; 105; 110; 101] /\
+    background_s v = Ok [35; 48; 48; 54].
+Proof. eexists. split; [vm_compute; reflexivity|]. vm_compute. split; reflexivity. Qed.
+
+Example odd_strings :
+  (* int() oddities reachable through the colour lexer *)
+  py_int 16 [48; 120; 95; 49] = Some 1                      (* int("0x_1", 16) *)
+  /\ py_int 10 [32; 43; 1637; 32] = Some 5                   (* int(" +\u0665 ", 10): Arabic-Indic digit *)
+  /\ py_int 10 [49; 95; 95; 48] = None                       (* "1__0" *)
+  /\ py_int 10 [28; 53] = None                               (* "\x1c5": a space for strip(), not for int() *)
+  /\ strip [28; 53; 8195] = [53]
+  /\ attrspec_new_s [104; 48; 97; 48; 98; 53; 99] [] 88       (* 'h0a0b5c' at 88 colours collapses to 'h005' *)
+     = attrspec_new_s [104; 53] [] 88
+  /\ attrspec_new_s [35; 103; 103; 103; 103; 103; 103] [] TRUE_DEPTH = RErr AttrSpecError 2.   (* '#gggggg' *)
 Proof. vm_compute. repeat split. Qed.
 
 (* ===== non-vacuity ===== *)
